@@ -35,7 +35,8 @@ ASSUMPTIONS = [
     'them, DS9/CRTF files byte for byte',
 ]
 
-OPS = ['contains', 'in', 'area', 'bbox', 'to_mask', 'mask_apply', 'to_sky',
+OPS = ['contains', 'in', 'area', 'bbox', 'to_mask', 'mask_apply', 'mask_values',
+       'to_sky',
        'to_pixel', 'sky_contains', 'rotate', 'copy', 'combine', 'artist',
        'serialize', 'serialize_one', 'parse', 'parse_table', 'write_read',
        'slice']
@@ -60,6 +61,7 @@ class Model:
     def _flat(self):
         p = self.pool
         return [p['pix'], p['sky'], p['pix_shared'], p['coord'], p['image'],
+                p['mask'],
                 [lst.regions for lst in p['list']],
                 [w.to_header().tostring() for w in p['wcs']]]
 
